@@ -53,6 +53,10 @@ func c02Values() []c02Named {
 		{"struct embedding a nil pointer", c16S2{Own: "o"}}, {"*struct embedding a set pointer", &c16S2{&c16PE{7}, "o"}},
 		{"named []string with String()", c16Tags{"t1", "t2"}}, {"net.IP", net.IP{10, 0, 0, 1}}, {"time.Duration", 90 * time.Second},
 		// characters outside the basic multilingual plane, invalid UTF-8, NUL and other control characters
+		// pointers to scalars, nil and set (optional fields of a record), also inside a safe wrapper and a slice
+		{"(*string)(nil)", (*string)(nil)}, {"(*int)(nil)", (*int)(nil)}, {"(*bool)(nil)", (*bool)(nil)}, {"(*float64)(nil)", (*float64)(nil)}, {"(*uint8)(nil)", (*uint8)(nil)},
+		{"*string", sp("ptr")}, {"*float64", np(2.5)}, {"*bool", bp(true)}, {"safe((*string)(nil))", stick.NewSafeValue((*string)(nil), "html")}, {"[]Value{(*int)(nil)}", []stick.Value{(*int)(nil), (*string)(nil)}},
+		{"(*[]string)(nil)", (*[]string)(nil)}, {"(*map[string]int)(nil)", (*map[string]int)(nil)}, {"(*[2]int)(nil)", (*[2]int)(nil)}, {"**int(nil)", (**int)(nil)},
 		{`"\U0001F600\U00010000\U0010FFFF"`, "\U0001F600\U00010000\U0010FFFF"}, {`"\xff\xc3"`, "\xff\xc3"}, {`"a\x00b\x1f\u2028"`, "a\x00b\x1f\u2028"},
 	}
 }
